@@ -369,7 +369,7 @@ def _positive_examples(rep):
         "PU-PLT": check_pu_plt(pp, oa, scratch, allowed_modules=set())[0],
         "PU-DTYPE": check_pu_dtype(pp, scratch)[0],
     }
-    want = {"PU-ARGS": 5, "PU-CAPT": 2, "PU-STATE": 5, "PU-RNG": 1, "PU-PLT": 1, "PU-DTYPE": 1}
+    want = {"PU-ARGS": 5, "PU-CAPT": 2, "PU-STATE": 5, "PU-RNG": 1, "PU-PLT": 1, "PU-DTYPE": 2}
     for r, n in want.items():
         if got[r] < n:
             raise AnalysisError(f"positive example: rule {r} flagged {got[r]} constructs, expected >= {n} "
